@@ -1,6 +1,7 @@
 //! vp_core — property-based testing / fuzzing machinery for the actix-web properties C01..C19.
 //! See /verif/DESIGN.md.
 
+pub mod alloc;
 pub mod gen;
 pub mod h1engine;
 pub mod httpwire;
@@ -10,6 +11,9 @@ pub mod runner;
 pub mod util;
 
 use runner::{Report, RunCfg, Verdict};
+
+#[global_allocator]
+static GLOBAL: alloc::Counting = alloc::Counting;
 
 pub struct PropEntry {
     pub id: &'static str,
